@@ -76,25 +76,32 @@ ReadProgs == {ReadProg(X) : X \in VarLists}
 
 \* ---- kind family (C18) ---------------------------------------------------------------------
 \* registers: 1 F 2 D1 3 D2 4 N(F) 5 N(D1) 6 N(D2) 7 N(D1) other vars 8 N(D2) other vars 9 F
-KindProg(X, Y) ==
-  LET leaves == << LeafF(FOfRat(7, 4)), Leaf("D1", 1, FOfRat(5, 4), X), Leaf("D2", 2, FOfRat(3, 2), X),
+\* `crit`: values for which the float remainder and a - trunc(a/b)*b differ (1.0 % 0.1), so that a container arm
+\* routed through the wrong contained-type operation is visible in the VALUE
+KindProgV(X, Y, crit) ==
+  LET leaves == IF crit THEN << LeafF(FOfRat(1, 10)), Leaf("D1", 1, FOfInt(1), X), Leaf("D2", 2, FOfInt(1), X),
+                                Leaf("D1", 3, FOfRat(3, 10), Y), Leaf("D2", 4, FOfRat(3, 10), Y), LeafF(FOfRat(1, 10)) >>
+                ELSE << LeafF(FOfRat(7, 4)), Leaf("D1", 1, FOfRat(5, 4), X), Leaf("D2", 2, FOfRat(3, 2), X),
                    Leaf("D1", 3, FOfRat(9, 8), Y), Leaf("D2", 4, FOfRat(11, 8), Y), LeafF(FOfRat(3, 4)) >>
       \* wraps: 7..11 = N(1), N(2), N(3), N(4), N(5)
       wraps == << [op |-> "wrap", a |-> 1], [op |-> "wrap", a |-> 2], [op |-> "wrap", a |-> 3], [op |-> "wrap", a |-> 4], [op |-> "wrap", a |-> 5] >>
       N == 7..11
       bin == {Bin(op, a, b, f) : op \in BinOps, a \in N, b \in N, f \in {<<"r", "r">>, <<"v", "v">>}}
              \cup {Bin(op, a, 6, f) : op \in BinOps, a \in N, f \in Forms} \cup {Bin(op, 6, a, f) : op \in BinOps, a \in N, f \in Forms}
-      raw == {Bin(op, a, b, <<"r", "r">>) : op \in BinOps, a \in {2, 3, 6}, b \in {2, 3, 6}} \ {Bin(op, 2, 3, <<"r", "r">>) : op \in BinOps}
+      \* bare twins of the container operations (first with second order cannot be formed bare)
+      Compat(a, b) == ~({a, b} \subseteq {2, 3, 4, 5} /\ ((a \in {2, 4}) # (b \in {2, 4})))
+      raw == {Bin(op, a, b, f) : op \in BinOps, a \in 1..6, b \in 1..6, f \in {<<"r", "r">>, <<"v", "v">>}}
+      rawok == {x \in raw : Compat(x.a, x.b)}
       cmp == {Ins2(op, a, b) : op \in {"lt", "le", "gt", "ge", "eq", "ne", "abs_sub"}, a \in N, b \in N}
              \cup {Ins2(op, a, 6) : op \in {"lt", "le", "gt", "ge", "eq", "ne"}, a \in N} \cup {Ins2(op, 6, a) : op \in {"lt", "le", "gt", "ge", "eq", "ne"}, a \in N}
       un == {[op |-> op, a |-> a, fa |-> f, p |-> FOfRat(3, 2)] : op \in {"neg", "pow", "exp", "log", "ncdf", "incdf", "abs", "signum", "is_positive", "is_negative", "is_zero"},
                                                                  a \in N \cup {2, 3}, f \in {"r", "v"}}
       conv == {[op |-> op, a |-> a, fa |-> f] : op \in {"to_f64", "to_d1", "to_d2", "unwrap", "to_n"}, a \in 1..11, f \in {"r", "v"}}
-      so == {[op |-> op, a |-> a, order |-> o, vars |-> v] : op \in {"set_order", "set_order_clone"}, a \in N, o \in 0..2, v \in {<<>>, <<"p", "q">>}}
+      so == {[op |-> op, a |-> a, order |-> o, vars |-> v] : op \in {"set_order", "set_order_clone"}, a \in N, o \in 0..2, v \in {<<>>, <<"p", "q">>, <<"p", "q", "p">>}}
       misc == {[op |-> "sum", kind |-> "N", regs |-> r] : r \in {<<>>, <<7>>, <<7, 8>>, <<8, 10, 7>>, <<9, 11, 7>>, <<8, 9>>}}
               \cup {[op |-> z, kind |-> k] : z \in {"zero", "one"}, k \in {"D1", "D2", "N"}}
-  IN [key |-> "kinds/" \o ToString(X) \o ToString(Y), leaves |-> leaves, code |-> wraps \o SetToSeq(bin \cup raw \cup cmp \cup un \cup conv \cup so \cup misc)]
-KindProgs == {KindProg(X, Y) : X \in {<<"a", "b">>, <<>>}, Y \in {<<"a", "b">>, <<"b", "c">>, <<"b", "a">>}}
+  IN [key |-> "kinds/" \o (IF crit THEN "crit/" ELSE "") \o ToString(X) \o ToString(Y), leaves |-> leaves, code |-> wraps \o SetToSeq(bin \cup rawok \cup cmp \cup un \cup conv \cup so \cup misc)]
+KindProgs == {KindProgV(X, Y, c) : X \in {<<"a", "b">>, <<>>}, Y \in {<<"a", "b">>, <<"b", "c">>, <<"b", "a">>}, c \in BOOLEAN}
 
 \* ---- order family (C19) ----------------------------------------------------------------------
 Vals == {FOfRat(-5, 2), FOfInt(-1), FOfRat(-3, 4), FOfRat(3, 4), FOfInt(1), FOfRat(5, 2)}
